@@ -1387,6 +1387,9 @@ func (g *gen) sCo(fc *fctx) []Stmt {
 	if g.ch(14) == 0 {
 		return g.sThreeGen(fc)
 	}
+	if g.ch(16) == 0 {
+		return g.sSiblings(fc)
+	}
 	if g.ch(10) == 0 {
 		// a coroutine whose body is a builtin or a host function
 		g.use("coroutine_over_go_function")
@@ -1946,4 +1949,53 @@ func (g *gen) sNameForms(fc *fctx) []Stmt {
 		}
 		return []Stmt{&Do{Body: out}}
 	}
+}
+
+// sSiblings: a coroutine A creates two coroutines B and C, starts both (they yield) and ends - by an error or by a
+// return; then B ends - by an error or by a return - while C lives on and is resumed twice more. The end of a
+// creator or of a sibling, however it comes about, is nobody else's end.
+func (g *gen) sSiblings(fc *fctx) []Stmt {
+	g.use("siblings_outlive_creator")
+	g.cost(80)
+	gb, gc := g.fresh("GB"), g.fresh("GC")
+	fa, fb, fcn, a, p := g.fresh("fa"), g.fresh("fb"), g.fresh("fc"), g.fresh("ca"), g.fresh("p")
+	nf := func(params []string, body ...Stmt) Func {
+		g.prog.NFuncs++
+		return Func{&FuncDef{ID: g.prog.NFuncs, Params: params, Body: body}}
+	}
+	emit := func(tag string, names ...string) Stmt { return g.emitVars(tag, names...) }
+	end := func(tag string) Stmt {
+		if g.ch(2) == 0 {
+			return &Call{Fn: Var{"error"}, Args: []Expr{Str{tag}, Num{0}}}
+		}
+		return &Return{Exprs: []Expr{Str{tag}}}
+	}
+	y1, y2, y3 := g.fresh("y"), g.fresh("y"), g.fresh("y")
+	bBody := nf([]string{p},
+		&Call{Names: []string{y1}, Fn: Var{"coyield"}, Args: []Expr{Bin{"+", Var{p}, Num{1}}}}, emit("sb", y1), end("b-ends"))
+	cBody := nf([]string{p},
+		&Call{Names: []string{y2}, Fn: Var{"coyield"}, Args: []Expr{Bin{"+", Var{p}, Num{2}}}}, emit("sc1", y2),
+		&Call{Names: []string{y3}, Fn: Var{"coyield"}, Args: []Expr{Bin{"+", Var{y2}, Num{1}}}}, emit("sc2", y3),
+		&Return{Exprs: []Expr{Bin{"+", Var{y3}, Num{1}}}})
+	ok1, r1, ok2, r2 := g.fresh("ok"), g.fresh("r"), g.fresh("ok"), g.fresh("r")
+	aStmts := []Stmt{
+		&Local{Names: []string{fb}, Exprs: []Expr{bBody}}, &Local{Names: []string{fcn}, Exprs: []Expr{cBody}},
+		&Call{Targets: []Expr{Var{gb}}, Fn: Var{"cocreate"}, Args: []Expr{Var{fb}}},
+		&Call{Targets: []Expr{Var{gc}}, Fn: Var{"cocreate"}, Args: []Expr{Var{fcn}}},
+		&Call{Names: []string{ok1, r1}, Fn: Var{"coresume"}, Args: []Expr{Var{gb}, Num{float64(g.ch(9))}}},
+		&Call{Names: []string{ok2, r2}, Fn: Var{"coresume"}, Args: []Expr{Var{gc}, Num{float64(g.ch(9))}}},
+		emit("sa", ok1, r1, ok2, r2), end("a-ends")}
+	m1, n1, m2, n2, m3, n3, m4, n4, s1, s2, s3 := g.fresh("ok"), g.fresh("r"), g.fresh("ok"), g.fresh("r"), g.fresh("ok"), g.fresh("r"), g.fresh("ok"), g.fresh("r"), g.fresh("st"), g.fresh("st"), g.fresh("st")
+	out := []Stmt{&Local{Names: []string{fa}, Exprs: []Expr{nf(nil, aStmts...)}},
+		&Call{Names: []string{a}, Fn: Var{"cocreate"}, Args: []Expr{Var{fa}}},
+		&Call{Names: []string{m1, n1}, Fn: Var{"coresume"}, Args: []Expr{Var{a}}}, emit("s1", m1, n1),
+		&Call{Names: []string{m2, n2}, Fn: Var{"coresume"}, Args: []Expr{Var{gb}, Num{10}}}, emit("s2", m2, n2),
+		&Call{Names: []string{m3, n3}, Fn: Var{"coresume"}, Args: []Expr{Var{gc}, Num{20}}}, emit("s3", m3, n3),
+		&Call{Names: []string{m4, n4}, Fn: Var{"coresume"}, Args: []Expr{Var{gc}, Num{30}}},
+		&Call{Names: []string{s1}, Fn: Var{"costatus"}, Args: []Expr{Var{a}}},
+		&Call{Names: []string{s2}, Fn: Var{"costatus"}, Args: []Expr{Var{gb}}},
+		&Call{Names: []string{s3}, Fn: Var{"costatus"}, Args: []Expr{Var{gc}}},
+		emit("s4", m4, n4, s1, s2, s3),
+		&Assign{Targets: []Expr{Var{gb}, Var{gc}}, Exprs: []Expr{Nil{}, Nil{}}}}
+	return []Stmt{&Do{Body: out}}
 }
